@@ -154,6 +154,10 @@ impl RecvStream<'_> {
         if !stream.final_offset_unknown() {
             let recv = entry.remove().expect("must have recv when stopping");
             self.state.stream_recv_freed(self.id, recv);
+            // The stream is gone for good: let the peer know right away that it may open another
+            // one. Otherwise the credit would only go out with whatever packet arrives next, and
+            // a peer that is blocked on its stream limit may have nothing left to send.
+            self.state.queue_max_stream_id(self.pending);
         }
 
         if self.state.add_read_credits(read_credits).should_transmit() {
